@@ -15,11 +15,12 @@ Fixpoint args_ok (o : op) : Prop :=
   | OSetFrom a _ _ | OAppendS a | OMinusS a | OIndexOfS a _ | OLastIndexOfS1 a | OLastIndexOfS a _ | OCountS a _
   | OStartsS a | OEndsS a | OStartsSI a | OEndsSI a | OCompare a | OCompareI a | OEqualsI a | OIndexOfSI a _ | OLastIndexOfSI a _
   | OSubstringAfter a | OSubstringUntil _ a | OWithInsertS _ a _ | OArgS a | OWithSuffixS a | OWithPrefixS a
-  | OWithoutSuffixS a _ | OWithoutPrefixS a _ | OPlusS a | OWithoutSuffixSI a _ | OWithoutPrefixSI a _ | OGetDistance a _ | ONumCmp a _ => sarg_ok a
+  | OWithoutSuffixS a _ | OWithoutPrefixS a _ | OPlusS a | OWithoutSuffixSI a _ | OWithoutPrefixSI a _ | OGetDistance a _ | ONumCmp a _ | OMinusPS a => sarg_ok a
   | OReplaceS a b _ _ | OWithReplS a b _ _ => sarg_ok a /\ sarg_ok b
   | OWithWord _ a sep => sarg_ok a /\ nulfree sep
   | OEscaped seps _ => nulfree seps
-  | OAppendCh ch | OSetAt _ ch => ch <> 0
+  | OAppendCh ch | OSetAt _ ch | OPlusCh ch | OChPlus ch => ch <> 0
+  | OCPlus lit => nulfree lit /\ lenN lit < LIM
   | OReplaceCh _ b _ _ | OWithReplCh _ b _ _ => b <> 0
   | OSwap _ l => nulfree l /\ lenN l < LIM
   | OUnflatten bytes => lenN bytes < LIM
@@ -34,7 +35,8 @@ Fixpoint need (l : list N) (o : op) : N :=
   match o with
   | OAppendS a | OPlusS a | OWithInsertS _ a _ | OWithSuffixS a | OWithPrefixS a => n + lenN (lit_of l a) + 1
   | OAppendC c | OInsertChars _ c _ => n + lenN (clit_of l c) + 1
-  | OAppendCh _ | OWithSuffixCh _ | OWithPrefixCh _ => n + 2
+  | OAppendCh _ | OWithSuffixCh _ | OWithPrefixCh _ | OPlusCh _ | OChPlus _ => n + 2
+  | OCPlus lit => n + lenN lit + 1
   | OShiftInt z => n + lenN (dec_of_Z z) + 1
   | OShiftBool _ => n + 6
   | OWithWord _ a sep => n + lenN (lit_of l a) + 2 * lenN sep + 1
@@ -495,6 +497,49 @@ Proof.
   - (* IndentedBy *)
     destruct (indented_spec s n ch Sb) as (I' & A'); [rewrite <- Ls; exact Nd|].
     eexists; splits; [reflexivity|f_equal; exact A'|exact I'].
+  - (* String + char *)
+    destruct inv_empty1 as (I0 & S0 & A0 & _).
+    destruct (prealloc_safe (StrModel.empty1 M jk) (u32 (slen s + 1)) I0) as (Ip & Ap).
+    destruct (set_from_spec _ (Some (src_of s)) 0 NOLIMIT Ip) as (r1 & E1 & I1 & A1); [split; [now apply src_ok_of|apply Sb]|].
+    rewrite E1. cbn [snd]. cbn [StrModel.osrc] in A1. rewrite l0_sub_all' in A1 by (rewrite lenN_src_bytes by (now apply src_ok_of); apply Sb).
+    change (src_bytes (src_of s)) with (abs s) in A1.
+    destruct (append_ch_spec r1 ch I1) as (I' & A'); [rewrite <- (lenN_abs r1 I1), A1; lia|].
+    eexists; splits; [reflexivity| |exact I']. f_equal. now rewrite A', A1.
+  - (* char + String *)
+    destruct inv_empty1 as (I0 & S0 & A0 & _).
+    destruct (prealloc_safe (StrModel.empty1 M jk) (u32 (slen s + 1)) I0) as (Ip & Ap).
+    destruct (set_cstr_spec _ (CLit [ch]) 1 Ip) as (r1 & E1 & I1 & A1).
+    { rewrite Ap, A0. constructor. }
+    { split; [constructor; [exact Ao|constructor]|unfold LIM; cbn; lia]. }
+    rewrite E1. cbn [snd]. cbn [clit_of] in A1.
+    assert (A1' : abs r1 = [ch]) by (rewrite A1; apply takeN_all; cbn; lia).
+    destruct (append_s_spec r1 (Some (src_of s)) I1) as (I' & A').
+    { split; [now apply src_ok_of|apply Sb]. }
+    { cbn [StrModel.osrc src_of snd]. rewrite <- (lenN_abs r1 I1), A1'. cbn [lenN length N.of_nat Pos.of_succ_nat]. lia. }
+    eexists; splits; [reflexivity| |exact I']. f_equal. rewrite A', A1'. cbn [StrModel.osrc cstr].
+    assert (Ez : (ch =? 0) = false) by now apply N.eqb_neq. rewrite Ez. reflexivity.
+  - (* const char-ptr + String *)
+    destruct Ao as [Fl Bl'].
+    destruct inv_empty1 as (I0 & S0 & A0 & _).
+    destruct (prealloc_safe (StrModel.empty1 M jk) (u32 (lenN lit + slen s)) I0) as (Ip & Ap).
+    destruct (set_cstr_spec _ (CLit lit) NOLIMIT Ip) as (r1 & E1 & I1 & A1).
+    { rewrite Ap, A0. constructor. }
+    { split; trivial. }
+    rewrite E1. cbn [snd]. cbn [clit_of] in A1.
+    assert (A1' : abs r1 = lit) by (rewrite A1; apply takeN_all; unfold NOLIMIT, LIM in *; lia).
+    destruct (append_s_spec r1 (Some (src_of s)) I1) as (I' & A').
+    { split; [now apply src_ok_of|apply Sb]. }
+    { cbn [StrModel.osrc src_of snd]. rewrite <- (lenN_abs r1 I1), A1'. lia. }
+    eexists; splits; [reflexivity| |exact I']. f_equal. now rewrite A', A1'.
+  - (* String - String *)
+    destruct (copy_spec s Sb) as (Ic & Ac).
+    destruct (minus_s_spec (StrModel.ctor_copy M TH PG OV jk true (src_of s)) (Some (osrc s (arg_src a))) Ic) as (I' & A').
+    { split; [apply (osrc_src_ok s a I)|]. rewrite (osrc_len s a I). now apply lit_len. }
+    eexists; splits; [reflexivity| |exact I']. f_equal. rewrite A', Ac. cbn [StrModel.osrc]. now rewrite osrc_bytes.
+  - (* String - char *)
+    destruct (copy_spec s Sb) as (Ic & Ac).
+    destruct (minus_ch_spec (StrModel.ctor_copy M TH PG OV jk true (src_of s)) ch Ic) as (I' & A').
+    eexists; splits; [reflexivity| |exact I']. f_equal. now rewrite A', Ac.
   - (* WithCharsEscaped *)
     destruct (escaped_spec s seps esc Sb) as (I' & A'); [rewrite <- Ls; exact Nd|].
     eexists; splits; [reflexivity|f_equal; exact A'|exact I'].
